@@ -95,7 +95,8 @@ struct Totals {
   std::unordered_map<std::string, uint64_t> oom_sites;
   std::unordered_set<uint64_t> nontrivial, sched_hashes;
   uint64_t runs_by_locale[3] = {0, 0, 0};
-  uint64_t runs_caller_tloc = 0;   // runs in which at least one task ran under its own uselocale() object
+  uint64_t runs_caller_tloc = 0;
+  uint64_t perturb_runs = 0;       // partner runs with other contents of uninitialised memory (mem engine)   // runs in which at least one task ran under its own uselocale() object
   std::map<std::string, uint64_t> per_batchkind;
 } TT;
 
@@ -401,6 +402,7 @@ static void child_run(const Plan& p) {
   scrub_stack();
   run_reset_child();
   reuse_reset(p.reuse != 0);
+  g_fill_byte = p.fill & 0xff;
   if (!apply_locale(p.locale)) { fprintf(stderr, "xrlsim: locale configuration %d unavailable\n", p.locale); _exit(3); }
   logf("PLAN engine=%s batch=%s seed=%llu runseed=%llu locale=%s", p.engine.c_str(), p.batch.c_str(), (unsigned long long)p.seed,
        (unsigned long long)p.runseed, locale_name(p.locale));
@@ -490,6 +492,7 @@ static Plan gen_plan(uint64_t runseed) {
   if (O.engine == "mem") {
     p.locale = pick_locale(rp, false);
     p.tasks[0].tloc = pick_tloc(runseed, 0, p.locale, false);
+    p.perturb = splitmix64(runseed ^ tag_of("perturb")) % 4 == 0 ? 1 : 0;
     cfg.alloc_faults = cfg.file_faults = O.batch == "hist_faults";
     cfg.min_ops = 1;
     cfg.max_ops = rp.chance(1, 3) ? std::min(8, O.max_ops) : O.max_ops;
@@ -777,6 +780,38 @@ static Outcome evaluate(const Plan& p, bool count = true, bool keep_log = false)
   }
   Outcome o = run_forked(p, keep_log);
   if (count) accumulate_counters();
+  if (p.engine == "mem" && p.perturb && !p.fill && o.status == ST_OK && !o.stopped) {
+    // perturbation partner: the same plan with different contents of fresh heap blocks and dead stack slots.  A result
+    // (or a sanitizer report) that changes with them was computed from memory the library never initialised.
+    Plan q = p;
+    q.fill = 0x3c;
+    Outcome o2 = run_forked(q);
+    if (count) { accumulate_counters(); TT.perturb_runs++; }
+    if (o2.status == ST_VIOL) {
+      for (auto s2 : o2.sigs) { s2.detail += " [only when fresh memory holds 0x3c instead of 0xbe: uninitialised value used]"; o.sigs.push_back(s2); }
+    } else if (o2.status == ST_OK && !o2.stopped) {
+      size_t n = std::min(o.res[0].size(), o2.res[0].size());
+      for (size_t i = 0; i < n; i++) {
+        const OpResult& a = o.res[0][i];
+        const OpResult& b = o2.res[0][i];
+        if (!a.done || !b.done || a.fault_fired || b.fault_fired) continue;
+        if (a.digest == b.digest && a.failed == b.failed) continue;
+        const Op& op = p.tasks[0].ops[std::min(i, p.tasks[0].ops.size() - 1)];
+        Sig g;
+        g.cls = "uninitialised-value";
+        g.site = i < p.tasks[0].ops.size() ? (op.kind == OK_Q || op.kind == OK_CR_MATH || op.kind == OK_MISC ? op.fn : kOpNames[op.kind]) : "(release)";
+        char bb[300];
+        snprintf(bb, sizeof bb, "op #%zu: digest %016llx failed=%d, but %016llx failed=%d when fresh heap/stack memory holds 0x3c instead of 0xbe", i,
+                 (unsigned long long)a.digest, a.failed, (unsigned long long)b.digest, b.failed);
+        g.detail = bb; g.op = i < p.tasks[0].ops.size() ? op.id : -1;
+        bool dup = false;
+        for (auto& x : o.sigs) dup = dup || x.key() == g.key();
+        if (!dup) o.sigs.push_back(g);
+        break;   // later ops may only differ because of this one
+      }
+    }
+    if (!o.sigs.empty()) o.status = ST_VIOL;
+  }
   return o;
 }
 
@@ -1048,6 +1083,7 @@ static void build_strata() {
 static Plan stratum_plan(const Stratum& s, uint64_t runseed) {
   Plan p;
   p.engine = O.engine; p.batch = "strata"; p.data = O.data; p.seed = O.seed; p.runseed = runseed; p.locale = LOC_C;
+  p.perturb = O.engine == "mem" && splitmix64(runseed ^ tag_of("perturb")) % 4 == 0 ? 1 : 0;
   p.tasks.push_back(TaskPlan());
   const QueryDef& d = g_queries[s.q];
   Rng r(runseed);
@@ -1248,7 +1284,7 @@ int main(int argc, char** argv) {
     kv("oom_unhandled", TT.oom_unhandled); kv("oom_swallowed", TT.oom_swallowed); kv("watchdog", TT.watchdog); kv("internal", TT.internal);
     kv("first_call_runs", g_first_runs); kv("unmodelled_sync", TT.unmodelled_sync); kv("edges_total", g_cov_n ? g_cov_n - 1 : 0); kv("edges_covered", cov);
     kv("nontrivial", TT.nontrivial.size()); kv("sched_hashes", TT.sched_hashes.size());
-    kv("runs_locale_C", TT.runs_by_locale[0]); kv("runs_locale_Cutf8", TT.runs_by_locale[1]); kv("runs_locale_xx", TT.runs_by_locale[2]); kv("runs_caller_thread_locale", TT.runs_caller_tloc);
+    kv("runs_locale_C", TT.runs_by_locale[0]); kv("runs_locale_Cutf8", TT.runs_by_locale[1]); kv("runs_locale_xx", TT.runs_by_locale[2]); kv("runs_caller_thread_locale", TT.runs_caller_tloc); kv("perturbation_partner_runs", TT.perturb_runs);
     snprintf(b, sizeof b, ",\"wall_s\":%.3f", wall); s += b;
     s += ",\"faults\":{";
     for (int i = 0; i < FK_N; i++) { snprintf(b, sizeof b, "%s\"%s\":%llu", i ? "," : "", kFaultNames[i], (unsigned long long)TT.faults[i]); s += b; }
